@@ -463,16 +463,25 @@ def check(run: Run) -> None:
     sz = gm.func("GBNFCompiler._sanitize_rule_name")
     # appended pieces: the character itself under isascii and (isalnum or '_'), or an f-string over [a-z0-9_]
     ok = True
+    # the accumulator: the local list whose join is the name (whatever it is called)
+    joined = {c.args[0].id for c in walk_no_nested(sz.node) if isinstance(c, ast.Call) and isinstance(c.func, ast.Attribute) and c.func.attr == "join" and len(c.args) == 1 and isinstance(c.args[0], ast.Name)}
+    n_pieces = 0
     for n in walk_no_nested(sz.node):
-        if isinstance(n, ast.Call) and isinstance(n.func, ast.Attribute) and n.func.attr == "append" and is_name(n.func.value, "sanitized"):
+        if isinstance(n, ast.Call) and isinstance(n.func, ast.Attribute) and n.func.attr == "append" and isinstance(n.func.value, ast.Name) and n.func.value.id in (joined | {"sanitized"}) and n.args:
             a = n.args[0]
-            if isinstance(a, ast.Name):
+            n_pieces += 1
+            if isinstance(a, ast.Subscript) and isinstance(a.value, ast.Name) and gm.has_const(a.value.id):
+                # a spelling taken from a constant table: every spelling is over [a-z0-9_]
+                tbl = run.project.try_fold(gm, a.value)
+                ok = ok and isinstance(tbl, dict) and all(isinstance(v, str) and re.fullmatch(r"[a-z0-9_]*", v) is not None for v in tbl.values())
+            elif isinstance(a, ast.Name):
                 cfg = CFG(sz.node)
                 tests = [t for x in cfg.node_for_stmt_containing(n) for t, val in branch_conditions(cfg, x) if val is True and a.id in names_in(t)]
                 # evaluate the guarding test on every ASCII character: what it lets through must be inside [A-Za-z0-9_]
                 pe = rx.PredicateEval({}, {})
                 allowed = set()
-                for code in range(128):
+                # (and on letters / digits outside ASCII: `isalnum()` alone is true for ö, 名, ², ٣)
+                for code in list(range(128)) + [0xB2, 0xDF, 0xE9, 0xF6, 0x3A9, 0x416, 0x663, 0x540D, 0x2192, 0x1F600]:
                     ch = chr(code)
                     try:
                         if tests and all(pe._expr(t, {a.id: ch}, 0) for t in tests):
@@ -488,6 +497,7 @@ def check(run: Run) -> None:
                 ok = ok and re.fullmatch(r"[a-z0-9_]*", consts) is not None and all(v.format_spec is not None and "x" in ast.unparse(v.format_spec) for v in fmts)
             else:
                 ok = False
+    ok = ok and n_pieces >= 1  # (no piece examined = nothing decided)
     lowered = any(isinstance(n, ast.Call) and isinstance(n.func, ast.Attribute) and n.func.attr == "lower" for n in walk_no_nested(sz.node))
     nonempty = any(isinstance(n, ast.Return) and isinstance(n.value, ast.BoolOp) and isinstance(n.value.op, ast.Or) and isinstance(n.value.values[-1], ast.Constant) and n.value.values[-1].value for n in walk_no_nested(sz.node))
     digit_guard = any(isinstance(n, ast.If) and "isdigit()" in ast.unparse(n.test) for n in walk_no_nested(sz.node))
